@@ -26,6 +26,8 @@
 #include "parse_statement.h"
 #include "plugin_manager.h"
 #include "string_reader.h"
+
+#include <cstdio>
 #include "collection.h"
 #include "tuple.h"
 #include "value.h"
@@ -34,6 +36,9 @@
 #define to_bool(a) (a == bloc_true ? true : false)
 
 static struct { const char * msg; int no; } bloc_error = { "", 0 };
+/* the record keeps its own copy of the message: the text returned by what()
+ * lives in a per-thread buffer that is reused by the next error */
+static char bloc_error_msg[256] = "";
 
 const char*
 bloc_strerror() {
@@ -54,7 +59,8 @@ bloc_error_raz()
 static void
 bloc_error_set(const char *msg, int no)
 {
-  bloc_error.msg = msg;
+  snprintf(bloc_error_msg, sizeof(bloc_error_msg), "%s", (msg ? msg : ""));
+  bloc_error.msg = bloc_error_msg;
   bloc_error.no = no;
 }
 
